@@ -343,12 +343,65 @@ def revoke_loop(ctx):
     return out
 
 
+def grant_loop(ctx):
+    """GRANT p ON t1, t2 TO u: what is stored for t2 is (what u already holds on t2) or p - nothing u holds on t1"""
+    b = Builder(ctx, "handlers-permissions-handle-{closure#0}.", "permissions::handle (GRANT / REVOKE arms)", {})
+    E, q = b.E, ctx.q
+    r = b.mk("B-6", "permissions::handle, GRANT / REVOKE over several event types: the permission set stored for one event type "
+                    "does not depend on the permissions the user holds on the other event types of the same command (each is "
+                    "merged with its own existing set only) - otherwise a right held on one type leaks to the next")
+    out = [b.results["B-6"]]
+    if not r:
+        return out
+    grants = [e for e in oblig.events(E, r"AuthManager::grant_permission$") if e.layer >= 1 and len(e.args) > 3]
+    if not oblig.need_anchor(r, grants, "AuthManager::grant_permission in a second loop iteration"):
+        return out
+    r.nontrivial = True
+    r.bounds = f"loops unrolled {ctx.k}x (event types 2..{ctx.k + 1} of one command); semantic dependence decided by renaming the other iterations' existing-permission symbols"
+    for ev in grants:
+        a = ev.args[3]
+        if isinstance(a, sym.Ref):           # `set.clone()`: the stored value is the referenced local at this point
+            a, _ty = E.read_place(ev.env, a.place)
+        fields = getattr(a, "fields", None)
+        if fields:
+            fields = [E.to_term(f, "bool") if not sym.is_term(f) else f for f in fields]
+        if not fields or not all(f is not None and sym.is_term(f) for f in fields):
+            r.status = "inconclusive"
+            r.notes.append("the stored PermissionSet is not resolved to terms")
+            return out
+        mine = "@L%d" % ev.layer
+        for name, t in zip(getattr(a, "names", None) or ["read", "write"], fields):
+            other = sorted(s_ for s_ in oblig.free_symbols(t) | oblig.free_symbols(ev.reach)
+                           if re.search(r"unwrap_or_else#\d+(@L\d+)?\.(read|write)$", s_)
+                           and not re.search(re.escape(mine) + r"\.(read|write)$", s_))
+            if not other:
+                continue
+            subs = [(z3.Bool(o), z3.Bool(o + "'")) for o in other]
+            t2, reach2 = z3.substitute(t, *subs), z3.substitute(ev.reach, *subs)
+            res, model = q.check(ev.reach, reach2, t != t2, domain=E.domain)
+            r.queries += 1
+            if res == z3.sat:
+                dep = [o for o in other if z3.is_true(model.eval(z3.Bool(o), model_completion=True)) != z3.is_true(model.eval(z3.Bool(o + "'"), model_completion=True))]
+                r.status = "violated"
+                r.witness = {"what": f"the `{name}` right stored for event type #{ev.layer + 1} of the command changes with what the user holds on "
+                                     f"another event type of the same command ({', '.join(dep) or ', '.join(other)}): a right leaks from one type to the next",
+                             "span": f"{ev.span[0]}:{ev.span[1]}" if ev.span else None, "call": "AuthManager::grant_permission",
+                             "path": E.path_of_model(model)[-10:], "model": {"differs_in": dep}}
+                return out
+            if res != z3.unsat:
+                r.status = "inconclusive"
+                r.notes.append("solver returned unknown")
+                return out
+    return out
+
+
 def obligations(ctx):
     out = []
     out += summaries(ctx)
     out += permission_updates(ctx)
     out += key_revocation(ctx)
     out += revoke_loop(ctx)
+    out += grant_loop(ctx)
     for (oid, needle, label, perm, eff, opt) in HANDLERS:
         out += gate(ctx, oid, needle, label, perm, eff, opt)
     out += dispatcher(ctx)
